@@ -8,6 +8,9 @@
   C14.4  the DP cannot return -inf and never takes a segment twice: finite re-initialisation before maximising,
          predecessor recorded only on strict improvement, predecessors range over a proper prefix, own score added
          once, back-tracking until None; empty segments are passed through (complementary predicates)
+  C14.5  the join score is a function of the two segments and the scorer's two configuration values only: getScore (and the
+         methods of the scorer it calls) write no attribute or container of the scorer and never use object identity
+         (id()): a remembered score of an earlier pair must not stand in for a later one
 Declined: optimality over all order-respecting subsets.
 """
 from __future__ import annotations
@@ -48,6 +51,7 @@ def run(ck):
     ck.clause("C14.2", "-inf exactly when a neighbour overlaps by more than half the shorter extent (either axis)")
     ck.clause("C14.3", "reference and query distance = current start - previous end on both strands (mirrored coordinates ascend)")
     ck.clause("C14.4", "DP bookkeeping: finite init, strict improvement, proper prefix, own score once, empty pass-through")
+    ck.clause("C14.5", "the join score depends on the two segments and the configuration only (no remembered state, no id())")
     join_score(ck)
     dp(ck)
 
@@ -60,8 +64,10 @@ def join_score(ck):
     if len(prm) != 2:
         raise AnalysisError(f"{fn.where}: getScore(previous, current) expected")
     prev, cur = prm
+    pure_scorer(ck, fn)
     ref_dist, q_dist, fwd, rev, ref_len, q_len = expected_distances(prev, cur)
-    paths = [pa for pa in explore(ck, fn) if pa.outcome == "return"]
+    own = lambda callee: callee.cls is fn.cls and callee is not fn     # helper methods the formula may have been moved to
+    paths = [pa for pa in explore(ck, fn, follow=own) if pa.outcome == "return"]
     ck.floor("C14 return paths of getScore", len(paths), 2)
     inf = T.mk_attr(("ext", "math"), "inf")
     neg_inf = T.p_neg(inf)
@@ -138,6 +144,24 @@ def join_score(ck):
     ck.floor("C14.2 -inf return paths", n_inf, 1)
     ck.floor("C14.1 finite return paths", n_fin, 1)
     ck.observe("O6 segmentJoinMultiplier is not validated to be non-negative (args.py)")
+
+
+def pure_scorer(ck, fn):
+    """C14.5: no state of the scorer is written while scoring, no object identity is used"""
+    from ..rules.effects import self_state_writes
+    hits, n = self_state_writes(ck.ctx.p, fn)
+    for f, node, kind in hits:
+        if kind == "state-write":
+            ck.violation("C14.5", short(f) + ":state-write", where(f, node),
+                         "the scorer writes its own state while scoring: a later call can be answered from what an earlier, "
+                         "unrelated pair left behind (the scorer lives for the whole run and serves every query)",
+                         found=ast.unparse(node)[:140], required="no write to self.* in getScore and its helpers")
+        else:
+            ck.violation("C14.5", short(f) + ":identity", where(f, node),
+                         "object identity is used while scoring: id() values are reused once a segment is freed, so two different "
+                         "segment pairs can be taken for the same one", found=ast.unparse(node)[:100], required="no id()")
+    if not hits:
+        ck.ok("C14.5", short(fn) + ":pure", fn.where, f"{n} function(s) of the scorer examined: no write to self.*, no id()")
 
 
 def dp(ck):
@@ -254,6 +278,29 @@ def dp(ck):
             n_final += 1
             ck.violation("C14.4", short(fn) + ":empty-pass-through", w, "empty segments are not passed through with the chain",
                          found=T.show(v)[-200:], required="chain + [s for s in segments if s.empty]")
+            continue
+        if not is_final and v[0] != "concat":
+            # early return: only "nothing to chain -> the empty segments themselves" keeps every empty segment
+            conds = [(c, tv) for c, tv, _ in pa.state.assumptions]
+
+            def says_nothing_to_chain(c, tv):
+                c0, pos = T.positive(c)
+                truth = tv if pos else (not tv)
+                if not any(x[0] == "call" and x[1] == "sorted" for x in T.subterms(c0)) and not any(
+                        x[0] == "comp" and x not in empties for x in T.subterms(c0)):
+                    return False
+                if c0[0] == "call" and c0[1] in ("any", "bool", "len") and truth is False:
+                    return True
+                if c0[0] in ("call", "comp") and truth is False:
+                    return True
+                if c0[0] == "eq" and C(0) in c0[1:] and truth is True:
+                    return True
+                return False
+            ok = v in empties and conds and all(says_nothing_to_chain(c, tv) for c, tv in conds)
+            ck.judge(bool(ok), "C14.4", short(fn) + ":early-return", w,
+                     "an early return hands back all empty segments and happens only when there is no non-empty segment",
+                     found=f"return {T.show(v)[:120]} when " + "; ".join(("" if tv else "not ") + T.show(c)[:100] for c, tv in conds),
+                     required="return [s for s in segments if s.empty] only if there is no non-empty segment")
             continue
         if v[0] == "concat":
             n_final += 1
